@@ -16,6 +16,9 @@
 #include <unifex/scheduler_concepts.hpp>
 #include <unifex/sender_concepts.hpp>
 #include <unifex/stop_token_concepts.hpp>
+#if UNIFEX_ENABLE_CONTINUATION_VISITATIONS
+#include <unifex/async_trace.hpp>
+#endif
 
 #include <cstdlib>
 #include <cstring>
@@ -74,6 +77,8 @@ struct LeafRun {            // per (leaf, instance) observations
   int start_ctx = -1;
   bool tok_stop_possible = false, tok_stopped_at_start = false;
   long q_sched = -2, q_tag = -2, q_alloc = -2;   // receiver-query snapshots (-2: not asked, -1: default/unavailable)
+  int trace_root = -1;   // continuation-visitation builds: does async_trace(receiver) taken in start() reach the outermost receiver (1/0; -1 not taken)
+  int trace_len = 0;
 };
 
 struct World {
@@ -100,6 +105,7 @@ struct World {
   int stop_call_node = -1, stop_call_idx = -1;   // the callable of this node requests stop on the root source on this call (before doing its work)
   bool tracked_faults = true;                // value copies/moves are throw points (off when that class is a known finding)
   bool values_in_op_state = true;            // leaves deliver every other value from an object inside their operation state
+  const std::type_info* root_type = nullptr;   // type of the outermost receiver (async_trace oracle)
   bool abandoned = false;                    // case ends with a never-completing leaf (behind unstoppable): teardown of running ops is the harness's doing
   // contexts
   int current_ctx = 0;
@@ -430,6 +436,13 @@ struct Leaf {
         auto a = unifex::get_allocator(r);
         if constexpr (std::is_same_v<decltype(a), CountingAlloc<std::byte>>) run.q_alloc = a.l ? a.l->id : -1; else run.q_alloc = -1;
       }
+#if UNIFEX_ENABLE_CONTINUATION_VISITATIONS
+      if (w.root_type) {
+        auto entries = unifex::async_trace(r);
+        run.trace_len = (int)entries.size(); run.trace_root = 0;
+        for (auto& en : entries) if (en.continuation.type() == unifex::type_index(*w.root_type)) run.trace_root = 1;
+      }
+#endif
       SR_TR("leaf%d#%d started on ctx%d (token stop_possible=%d stopped=%d)", id, inst, w.current_ctx, (int)run.tok_stop_possible, (int)run.tok_stopped_at_start);
       bool destroyed = false; destroyed_flag = &destroyed;
       cb_live = true;
